@@ -18,7 +18,7 @@ SMALL = dict(CONSTS, Conns='{"c1", "c2", "c3"}', MaxReq="6")
 
 
 def group_of(cfgv):
-    mode = {"tls": '"server"', "mtls": '"mtls"'}.get(cfgv.get("tls", ""), '"none"')
+    mode = {"tls": '"server"', "mtls": '"mtls"', "mtls-vc": '"mtls"'}.get(cfgv.get("tls", ""), '"none"')
     return (mode, "TRUE" if cfgv.get("expect_run_error") == "1" else "FALSE", "TRUE" if cfgv.get("read_timeout_ms") else "FALSE")
 
 
@@ -34,7 +34,7 @@ def traces_of(rows, scenarios):
         if any(r["ev"] in ("emfile", "proc_exit", "cleanup_stop_timeout") for r in rs) or (cfgv.get("ready_dial") == "1" and cfgv.get("expect_run_error") != "1"):
             skipped += 1      # probe connections of the harness itself are not clients of the model
             continue
-        if cfgv.get("family") == "starttls-inflight":
+        if cfgv.get("family") == "starttls-inflight" or cfgv.get("stop_storm") == "1":
             skipped += 1      # a request in flight during the upgrade (non-conforming client; race-detector family): not modelled
             continue
         sends = {}
